@@ -86,7 +86,7 @@ def check_graph(nodes, root_obj, evaluate, root_is_label=False):
     full = [n for n in nodes if not n.cyclic]
     for idx, n in enumerate(nodes):
         if type(n.type) is typing.ForwardRef and not n.cyclic:
-            if n.var is not None and n.type.__forward_is_argument__ and n.type.__forward_module__:
+            if n.var is not None and n.type.__forward_is_argument__ and n.type.__forward_module__ and _signature_only_owner(n, nodes):
                 # the text of a constructor annotation under postponed evaluation (a class whose member types are
                 # written on __init__ only): handed on as a reference to it, never evaluated, never flagged
                 return ("signature-hint-left-as-reference", repr(n)[:160])
@@ -367,6 +367,38 @@ def _home(t, mods, rng):
 def _s(x, n=400):
     s = core.jdump(x) if not isinstance(x, str) else x
     return s if len(s) <= n else s[:n] + "..."
+
+
+def _signature_only_owner(n, nodes) -> bool:
+    """Is there a class in the graph whose member types Python itself finds on the constructor only
+    (typing.get_type_hints(cls) is empty) and whose parameter ``n.var`` is annotated with exactly the text
+    the reference node carries?"""
+    import inspect
+
+    cands = []
+    for m in nodes:
+        for c in (m.type, m.unwrapped):
+            for _ in range(8):  # through NewTypes and value aliases
+                nxt = getattr(c, "__supertype__", None) or (getattr(c, "__value__", None) if isinstance(c, typing.TypeAliasType) else None)
+                if nxt is None:
+                    break
+                c = nxt
+            cands.append(c)
+    for c in cands:
+        if not inspect.isclass(c) or getattr(c, "__module__", None) != n.type.__forward_module__:
+            continue
+        try:
+            if typing.get_type_hints(c):
+                continue
+        except Exception:  # noqa: BLE001
+            pass
+        try:
+            p = inspect.signature(c).parameters.get(n.var)
+        except (TypeError, ValueError):
+            continue
+        if p is not None and p.annotation == n.type.__forward_arg__:
+            return True
+    return False
 
 
 PROP = C09()
